@@ -91,12 +91,13 @@ pub fn run(out: &mut Out, thorough: bool, seed: u64) {
         }
     }
     for w in [Wrap::Pkh, Wrap::Wpkh, Wrap::ShWpkh] {
-        for key in [0u32, 1] {
+        // both parities, and the uncompressed encodings (legal in pkh only: the others refuse)
+        for key in [0u32, 1, 8, 9, 100, 101, 103] {
             if let Some(d) = desc::build_desc(w, &ast::Node::True, key) {
                 n_desc += 1;
                 for has in [true, false] {
                     let mut a = DAssets::default();
-                    if has { a.keys.insert(key); }
+                    if has { a.keys.insert(key % 100); }
                     for mall in [false, true] { desc::satisfy_and_judge(out, &d, &a, mall); }
                 }
             }
